@@ -79,6 +79,9 @@ func Gen(t *rapid.T) *Case {
 // also be led back to a type it has already passed).
 func GenRaw(t *rapid.T) *Case {
 	c := Gen(t)
+	if len(c.Edges) > 0 && !c.LateOn && rapid.IntRange(0, 4).Draw(t, "cancelling") == 0 {
+		c.CancelEdge = 1 + rapid.IntRange(0, len(c.Edges)-1).Draw(t, "cancelEdge")
+	}
 	if len(c.Edges) > 0 && rapid.IntRange(0, 2).Draw(t, "deviating") == 0 {
 		n := rapid.IntRange(1, 2).Draw(t, "ndev")
 		for i := 0; i < n; i++ {
